@@ -546,17 +546,18 @@ func (c *Client) doRountrip(ctx context.Context, msg *kmip.RequestMessage) (*kmi
 //   - *kmip.ResponseMessage - The KMIP response message received.
 //   - error - Any error encountered during processing or sending the request.
 func (c *Client) Roundtrip(ctx context.Context, msg *kmip.RequestMessage) (*kmip.ResponseMessage, error) {
-	i := 0
-	var next func(ctx context.Context, req *kmip.RequestMessage) (*kmip.ResponseMessage, error)
-	next = func(ctx context.Context, req *kmip.RequestMessage) (*kmip.ResponseMessage, error) {
-		if i < len(c.middlewares) {
-			mdl := c.middlewares[i]
-			i++
-			return mdl(next, ctx, req)
+	// Each continuation is bound to its own position in the chain, so that a middleware
+	// may invoke it several times (retry) and every invocation runs all the inner stages.
+	var at func(i int) Next
+	at = func(i int) Next {
+		return func(ctx context.Context, req *kmip.RequestMessage) (*kmip.ResponseMessage, error) {
+			if i < len(c.middlewares) {
+				return c.middlewares[i](at(i+1), ctx, req)
+			}
+			return c.doRountrip(ctx, req)
 		}
-		return c.doRountrip(ctx, req)
 	}
-	return next(ctx, msg)
+	return at(0)(ctx, msg)
 }
 
 // negotiateVersion negotiates the KMIP protocol version to be used by the client.
